@@ -13,7 +13,7 @@ from ..engine import Prop, canonical_hash
 
 common.use_repo()
 from hypergraph import AsyncRunner, SyncRunner  # noqa: E402
-from hypergraph.events import AsyncEventProcessor, EventDispatcher, EventProcessor  # noqa: E402
+from hypergraph.events import AsyncEventProcessor, EventDispatcher, EventProcessor, TypedEventProcessor  # noqa: E402
 
 
 class Boom(Exception):
@@ -46,6 +46,51 @@ class FailingSync(EventProcessor):
         self.shutdowns += 1
         if self.fail_shutdown:
             raise _EXC[0]("processor failure at shutdown")
+
+
+_TYPED_HANDLERS = ("on_run_start", "on_run_end", "on_node_start", "on_node_end", "on_cache_hit", "on_node_error", "on_route_decision", "on_interrupt",
+                   "on_stop_requested")
+
+
+class TypedFailing(TypedEventProcessor):
+    """The same failing observer written against the TYPED interface (one handler per event kind)."""
+
+    def __init__(self, fail_at: set[int] | None = None, always: bool = False, fail_shutdown: bool = False) -> None:
+        self.fail_at, self.always, self.fail_shutdown = fail_at or set(), always, fail_shutdown
+        self.seen = 0
+        self.received: list[int] = []
+        self.shutdowns = 0
+
+    def _handle(self, event: Any) -> None:
+        i = self.seen
+        self.seen += 1
+        self.received.append(i)
+        if self.always or i in self.fail_at:
+            raise _EXC[0](f"typed processor failure at event {i}")
+
+    def shutdown(self) -> None:
+        self.shutdowns += 1
+        if self.fail_shutdown:
+            raise _EXC[0]("processor failure at shutdown")
+
+
+class TypedRecorder(TypedEventProcessor):
+    """A healthy observer written against the typed interface."""
+
+    def __init__(self) -> None:
+        self.events: list[Any] = []
+        self.shutdowns = 0
+
+    def _handle(self, event: Any) -> None:
+        self.events.append(event)
+
+    def shutdown(self) -> None:
+        self.shutdowns += 1
+
+
+for _h in _TYPED_HANDLERS:
+    setattr(TypedFailing, _h, TypedFailing._handle)
+    setattr(TypedRecorder, _h, TypedRecorder._handle)
 
 
 def _meddle(event: Any) -> None:
@@ -150,6 +195,7 @@ class C13(Prop):
         gens = [lambda: gen.gen_dag_program(rng, max_nodes=5, depth=rng.choice([0, 1])), lambda: gen.gen_gated_cfg(rng),
                 lambda: gen.gen_loop_bounded(rng), lambda: gen.gen_failing_dag(rng), lambda: gen.gen_map_node(rng)]
         forced = 3
+        forced_typed = 4      # whatever the seed: observers written against the TYPED interface, a failing one next to a healthy one, run after run
         forced_await = 4      # whatever the seed: fan-outs under the async runner with an async processor that really suspends
         while True:
             if forced_await:
@@ -158,6 +204,7 @@ class C13(Prop):
                 yield {"program": c["program"], "values": c["values"], "cfg": {}, "runner": "async", "flavour": "async", "awaits": True, "sample_seed": rng.randint(0, 10**6),
                        "procKind": "plain", "warnErr": False, "excKind": "boom", "disp": {"n": rng.randint(1, 8), "procs": [self._rand_proc(rng) for _ in range(2)]}}
                 continue
+            forced_typed = max(0, forced_typed - 1)
             if forced or rng.random() < 0.1:
                 forced = max(0, forced - 1)
                 c = self._fanout(rng)
@@ -165,7 +212,7 @@ class C13(Prop):
                 c = rng.choice(gens)()
             yield {"program": c["program"], "values": c["values"], "cfg": c.get("cfg", {}), "runner": rng.choice(["sync", "async"]),
                    "flavour": rng.choice(["sync", "async"]), "awaits": rng.random() < 0.4, "sample_seed": rng.randint(0, 10**6),
-                   "procKind": rng.choice(["plain", "plain", "equal", "unhashable", "sized"]), "warnErr": rng.random() < 0.3,
+                   "procKind": "typed" if forced_typed else rng.choice(["plain", "plain", "equal", "unhashable", "sized", "typed"]), "warnErr": rng.random() < 0.3,
                    "excKind": rng.choice(list(EXC_KINDS)),
                    "disp": {"n": rng.randint(1, 8), "procs": [self._rand_proc(rng) for _ in range(rng.randint(1, 4))]}}
 
@@ -213,6 +260,8 @@ class C13(Prop):
         kind = case.get("procKind", "plain")
         Failing = _variant(FailingAsync if (case["flavour"] == "async" and case["runner"] == "async") else FailingSync, kind)
         Healthy = _variant(impl.Recorder, kind)
+        if kind == "typed":
+            Failing, Healthy = TypedFailing, TypedRecorder
         variants = [("at", {i}, False, False) for i in idxs] + [("always", set(), True, False), ("shutdown", set(), False, True)]
         for kind, at, always, sd in variants:
             bad = Failing(at, always, sd)
